@@ -137,6 +137,7 @@ func (c *queueClass_[V]) Fork(
 
 	// Connect up the input queue to the output queues in a separate go-routine.
 	group.Add(1)
+	verifYield(8, nil)
 	go func() {
 		// Make sure the wait group is decremented on termination.
 		defer group.Done()
@@ -189,6 +190,7 @@ func (c *queueClass_[V]) Split(
 
 	// Connect up the input queue to the output queues.
 	group.Add(1)
+	verifYield(8, nil)
 	go func() {
 		// Make sure the wait group is decremented on termination.
 		defer group.Done()
@@ -238,6 +240,7 @@ func (c *queueClass_[V]) Join(
 
 	// Connect up the input queues to the output queue.
 	group.Add(1)
+	verifYield(8, nil)
 	go func() {
 		// Make sure the wait group is decremented on termination.
 		defer group.Done()
@@ -293,9 +296,11 @@ func (v *queue_[V]) GetCapacity() uint {
 // Limited
 
 func (v *queue_[V]) AddValue(value V) {
+	verifYield(1, v)
 	v.mutex_.Lock()
 	v.values_.AppendValue(value)
 	v.mutex_.Unlock()
+	verifYield(2, v)
 	v.available_ <- true // The queue will block if at capacity.
 }
 
@@ -309,6 +314,7 @@ func (v *queue_[V]) RemoveAll() {
 // Sequential
 
 func (v *queue_[V]) IsEmpty() bool {
+	verifYield(6, v)
 	v.mutex_.Lock()
 	var result = len(v.available_) == 0
 	v.mutex_.Unlock()
@@ -316,6 +322,7 @@ func (v *queue_[V]) IsEmpty() bool {
 }
 
 func (v *queue_[V]) GetSize() int {
+	verifYield(6, v)
 	v.mutex_.Lock()
 	var size = len(v.available_)
 	v.mutex_.Unlock()
@@ -323,6 +330,7 @@ func (v *queue_[V]) GetSize() int {
 }
 
 func (v *queue_[V]) AsArray() []V {
+	verifYield(7, v)
 	v.mutex_.Lock()
 	var array = v.values_.AsArray()
 	v.mutex_.Unlock()
@@ -330,6 +338,7 @@ func (v *queue_[V]) AsArray() []V {
 }
 
 func (v *queue_[V]) GetIterator() age.IteratorLike[V] {
+	verifYield(7, v)
 	v.mutex_.Lock()
 	var iterator = v.values_.GetIterator()
 	v.mutex_.Unlock()
@@ -350,8 +359,10 @@ func (v *queue_[V]) RemoveHead() (V, bool) {
 	var ok bool
 
 	// Remove the head value from the queue if one exists.
+	verifYield(3, v)
 	_, ok = <-v.available_ // Will block until a value is available.
 	if ok {
+		verifYield(4, v)
 		v.mutex_.Lock()
 		head = v.values_.RemoveValue(1)
 		v.mutex_.Unlock()
@@ -362,6 +373,7 @@ func (v *queue_[V]) RemoveHead() (V, bool) {
 }
 
 func (v *queue_[V]) CloseQueue() {
+	verifYield(5, v)
 	v.mutex_.Lock()
 	close(v.available_)
 	// No more values can be placed on the queue.
